@@ -382,6 +382,7 @@ def unit_bounded_export(tier=None, seed=0):
     try:
         h5 = tmp / "r.h5"
         curves = []
+        rm = None
         for fn, rate in (("fmt-jpk-fd_spot3-0192.jpk-force", 7), ("fmt-jpk-fd_single_bad_2017-01-16_1.jpk-force", 1),
                          ("fmt-jpk-fd_single_bad_bead7_2017-04-27.jpk-force", 3)):
             cur = nanite.IndentationGroup(data / fn)[0]
@@ -389,19 +390,29 @@ def unit_bounded_export(tier=None, seed=0):
                           model_key="hertz_para")
             rio.save_hdf5(h5, cur, user_rate=rate, user_name="vf", user_comment="c")
             curves.append((cur, rate))
-        rm = rio.RateManager(h5)
+            if rm is None:
+                # a manager that has already looked at the container while it held ONE curve (as the rating GUI
+                # does): what it exports later is the container as it is then, rows and ratings aligned
+                rm = rio.RateManager(h5)
+                _ = (rm.ratings, rm.datasets, rm.samples)
         out = tmp / "ts_out"
         rm.export_training_set(out)
         names = IndentationRater.get_feature_names(which_type="all")
         loaded = rio.load(h5)
         order = [r["rating"] for r in loaded]
-        resp = np.loadtxt(out / "train_response.txt")
+        resp = np.atleast_1d(np.loadtxt(out / "train_response.txt"))
         ne += 1
+        first = np.atleast_1d(np.loadtxt(out / f"train_{names[0]}.txt"))
+        if len(first) != len(resp):
+            problems.append({"what": f"{len(first)} feature rows exported for {len(resp)} ratings (manager used before "
+                                     "two more curves were stored)"})
         if not np.array_equal(resp, np.array(order, dtype=float)):
             problems.append({"what": f"responses {resp.tolist()} vs container order {order}"})
         for j, nme in enumerate(names):
             col = np.atleast_1d(np.loadtxt(out / f"train_{nme}.txt"))
             for i, rec in enumerate(loaded):
+                if i >= len(col):
+                    break
                 want = IndentationRater.compute_features(rec["data_set"], names=[nme])[0]
                 ne += 1
                 got = col[i]
